@@ -246,6 +246,11 @@ func (p *Parser) lookupConverterFunc(funcName string, pos token.Pos) (argType, r
 		err = logger.Errorf("%v: function %v cannot use as a converter", p.fset.Position(pos), funcName)
 		return
 	}
+	if sig.Variadic() {
+		// The call passes one value; a variadic parameter would need "arg...".
+		err = logger.Errorf("%v: function %v cannot use as a converter", p.fset.Position(pos), funcName)
+		return
+	}
 	if sig.Results().Len() == 2 && !util.IsErrorType(sig.Results().At(1).Type()) {
 		err = logger.Errorf("%v: function %v cannot use as a converter", p.fset.Position(pos), funcName)
 		return
@@ -277,6 +282,10 @@ func (p *Parser) lookupManipulatorFunc(funcName, optName string, pos token.Pos) 
 
 	if sig.Params().Len() < 2 {
 		// A manipulator takes the destination and the source at least.
+		return nil, logger.Errorf("%v: function %v cannot use for %v func", p.fset.Position(pos), funcName, optName)
+	}
+	if sig.Variadic() {
+		// The call passes each argument as it is; a variadic parameter would need "arg...".
 		return nil, logger.Errorf("%v: function %v cannot use for %v func", p.fset.Position(pos), funcName, optName)
 	}
 
